@@ -9,7 +9,7 @@ From Relic Require Import Base.Prelude Generated.C10_gen C10.Model C10.Proofs.
       signature value; it is the FIRST such reply in configured order and exactly the authorities up to it were
       contacted.  Holds for every fault sequence, including panicking replies and context expiry. *)
 Theorem attached_only_if_genuine : forall H q rs t hits,
-  q_legacy q = false -> (forall r, In r rs -> 0 <= r_status r) ->
+  q_legacy q = false ->
   ts_client H q rs = (Ok t, hits) ->
   exists k r, nth_error rs k = Some r /\ t = r_stamp r /\ genuine_bytes H q r = true /\ hits = upto 0 (S k) /\
     forall j r', (j < k)%nat -> nth_error rs j = Some r' -> genuine_bytes H q r' = false.
@@ -17,7 +17,7 @@ Proof. exact C10.Proofs.attached_only_if_genuine. Qed.
 
 (* 1'. full strength (the imprint must also name the requested algorithm) where authorities label it honestly *)
 Theorem attached_only_if_genuine_full : forall H q rs t hits,
-  q_legacy q = false -> (forall r, In r rs -> 0 <= r_status r) ->
+  q_legacy q = false ->
   (forall r, In r rs -> imprint_alg_match q (r_stamp r) = true) ->
   ts_client H q rs = (Ok t, hits) ->
   exists k r, nth_error rs k = Some r /\ t = r_stamp r /\ genuine H q r = true /\ hits = upto 0 (S k) /\
@@ -25,10 +25,9 @@ Theorem attached_only_if_genuine_full : forall H q rs t hits,
 Proof. exact C10.Proofs.attached_only_if_genuine_full. Qed.
 
 (* 2. Ordered failover = the specification "first genuine authority in configured order wins; none => error",
-      on the domain without nil-nonce tokens and with a live caller context. *)
+      for every sequence of replies, as long as the caller's context stays alive. *)
 Theorem failover_in_order : forall H q rs,
-  q_legacy q = false -> (forall r, In r rs -> 0 <= r_status r) ->
-  (forall r, In r rs -> st_nonce (r_stamp r) <> None) ->
+  q_legacy q = false ->
   (forall r, In r rs -> r_ctx_dead r = false) ->
   rs <> [] ->
   match spec_client (genuine_bytes H q) rs 0 with
@@ -43,9 +42,20 @@ Theorem all_fail_means_error : forall H q rs,
   (forall r, In r rs -> accepts H q r = false) -> forall t, fst (ts_client H q rs) <> Ok t.
 Proof. exact C10.Proofs.all_fail_means_error. Qed.
 Theorem all_fail_means_error_rfc : forall H q rs,
-  q_legacy q = false -> (forall r, In r rs -> 0 <= r_status r) ->
+  q_legacy q = false ->
   (forall r, In r rs -> genuine_bytes H q r = false) -> forall t, fst (ts_client H q rs) <> Ok t.
 Proof. exact C10.Proofs.all_fail_means_error_rfc. Qed.
+
+(* 3'. Robustness of the client: no reply makes it panic; a token without nonce is an ordinary nonce mismatch (so the
+       next authority is tried, by failover_in_order); a PKIStatus outside {granted, grantedWithMods} is never accepted. *)
+Theorem client_never_panics : forall H q rs p, fst (ts_client H q rs) <> Panic p.
+Proof. exact C10.Proofs.client_never_panics. Qed.
+Theorem missing_nonce_is_mismatch : forall H q r,
+  q_legacy q = false -> st_nonce (r_stamp r) = None -> exists e, ts_do H q r = Err e.
+Proof. exact C10.Proofs.missing_nonce_is_mismatch. Qed.
+Theorem status_outside_rejected : forall H q r,
+  q_legacy q = false -> r_status r <> 0 -> r_status r <> 1 -> is_ok (ts_do H q r) = false.
+Proof. exact C10.Proofs.status_outside_rejected. Qed.
 
 (* 4. With a timestamper configured, a successful signing always carries a timestamp ... *)
 Theorem sign_never_unstamped : forall H cls q rs o hits,
@@ -83,6 +93,13 @@ Theorem countersig_binds_unique : forall H st d1 d2 t1 t2,
   verify_stamp H st d1 = Ok t1 -> verify_stamp H st d2 = Ok t2 -> d1 = d2.
 Proof. exact C10.Proofs.countersig_binds_unique. Qed.
 
+(* 7'. The verifier never panics; a token without attached content is an ordinary error *)
+Theorem verify_never_panics : forall H now s p, verify_all H now s <> Panic p.
+Proof. exact C10.Proofs.verify_never_panics. Qed.
+Theorem detached_token_is_error : forall H st data,
+  st_form st = 0 -> st_nsigners st = 1 -> st_has_content st = false -> verify_stamp H st data = Err E_INFO.
+Proof. exact C10.Proofs.detached_token_is_error. Qed.
+
 (* 8. Verification = specification (chains judged at the attested time) whenever the attested time is not Go's zero time *)
 Theorem verify_refines_spec : forall H now s,
   (forall st, s_stamp s = Some st -> st_time st <> 0) ->
@@ -99,11 +116,6 @@ Theorem expired_needs_timestamp : forall H now s,
 Proof. exact C10.Proofs.expired_needs_timestamp. Qed.
 
 (* ---------------------------------------------------------------- where the code as it exists violates the statement *)
-Theorem missing_nonce_panics_refuted :
-  exists q rs, q_legacy q = false /\
-    spec_client (genuine Hsym q) rs 0 = (Some (r_stamp w_good), [0; 1]) /\
-    ts_client Hsym q rs = (Panic P_NIL, [0]).
-Proof. exact C10.Proofs.missing_nonce_panics_refuted. Qed.
 Theorem legacy_no_failover_refuted :
   exists q rs good, q_legacy q = true /\
     spec_client (genuine_legacy q) rs 0 = (Some good, [0; 1]) /\
@@ -123,16 +135,9 @@ Theorem vsix_attaches_unverifiable_refuted :
   exists q rs t hits, sign_with_ts Hsym 2 true q rs = (Ok (Some t), hits) /\
     (forall r, In r rs -> genuine Hsym q r = false) /\ is_ok (verify_stamp Hsym t (q_sig q)) = false.
 Proof. exact C10.Proofs.vsix_attaches_unverifiable_refuted. Qed.
-Theorem negative_status_refuted :
-  exists q rs t hits, q_legacy q = false /\ ts_client Hsym q rs = (Ok t, hits) /\
-    (forall r, In r rs -> genuine Hsym q r = false).
-Proof. exact C10.Proofs.negative_status_refuted. Qed.
 Theorem zero_time_judged_now_refuted :
   exists now s, accepted Hsym now s = true /\ spec_accept Hsym now s = false.
 Proof. exact C10.Proofs.zero_time_judged_now_refuted. Qed.
-Theorem detached_token_panics_refuted :
-  exists now s, verify_all Hsym now s = Panic P_INDEX.
-Proof. exact C10.Proofs.detached_token_panics_refuted. Qed.
 
 (* ---------------------------------------------------------------- non-vacuity *)
 (* failover over three authorities: wrong nonce, rejection, then a genuine one *)
@@ -154,5 +159,11 @@ Example expired_leaf_example :
   accepted Hsym 300 (mkSig [1; 2; 4] leaf (Some st)) = false /\
   c_na leaf < 300.
 Proof. vm_compute. auto. Qed.
+(* a token without nonce and a reply with PKIStatus -1 are skipped; the third authority's token is used *)
+Example missing_nonce_fails_over :
+  let no_nonce := w_reply (w_stamp 0 None 3) 0 in
+  let minus1 := w_reply (w_stamp 1 (Some 7) 3) (-1) in
+  ts_client Hsym w_req [no_nonce; minus1; w_good] = (Ok (r_stamp w_good), [0; 1; 2]).
+Proof. vm_compute. reflexivity. Qed.
 Example hsym_injective : forall a x y, Hsym a x = Hsym a y -> x = y.
 Proof. intros a x y E. inversion E. reflexivity. Qed.
